@@ -5,7 +5,9 @@ NAME=$1; shift
 ALT=/tmp/repo-alt$ALT_TAG      # ALT_TAG=2 etc.: a second scratch worktree and build directory for a parallel batch
 if [ ! -d $ALT ]; then git -C /repo worktree add -q --detach $ALT HEAD || exit 2; fi
 cd $ALT || exit 2
-git checkout -q --detach ${BASE:-$(git -C /repo rev-parse HEAD)} 2>/dev/null;      # BASE=<commit>: a patch made against an older tree
+# the patch is applied to the newest tree it applies to (seeded/<name>/meta.json "applies_to", recorded when it was stored); BASE=<commit> overrides
+BASE=${BASE:-$(python3 -c "import json,sys; print(json.load(open('/verif/seeded/$NAME/meta.json')).get('applies_to') or '')" 2>/dev/null)}
+git checkout -q --detach ${BASE:-$(git -C /repo rev-parse HEAD)} 2>/dev/null
  git checkout -q -- . ; git clean -fdq
 git apply /verif/seeded/$NAME/patch.diff || { echo "patch does not apply"; exit 2; }
 trap 'cd '$ALT' && git checkout -q -- . && git clean -fdq' EXIT
